@@ -7,7 +7,7 @@ import subprocess
 import sys
 import tempfile
 
-from core import Check, VERIF, run_check
+from core import Check, VERIF, run_check, watchdog
 import gen
 from p_graph import tokenize_gfa
 
@@ -151,7 +151,8 @@ def run_order(gtext, order, with_seq, by_chrom, tmp, gz=False, default_order=Fal
     out = os.path.join(tmp, "out")
     shutil.rmtree(out, ignore_errors=True)
     try:
-        order_gfa.run_order_gfa(src, out, by_chrom=by_chrom, chromosome_order=("" if default_order else ",".join(order)), with_sequence=with_seq)
+        with watchdog(120):
+            order_gfa.run_order_gfa(src, out, by_chrom=by_chrom, chromosome_order=("" if default_order else ",".join(order)), with_sequence=with_seq)
     except SystemExit as e:
         return {"outcome": "exit", "code": e.code}
     except BaseException as e:  # noqa
